@@ -286,7 +286,8 @@ func killTrial(i int, rng *rand.Rand, base string) (violation string, nontrivial
 	stores := []credx.Mode{credx.TCPOnly, credx.UDPOnly, credx.Both}[rng.IntN(3)]
 	pad := []int{0, 0, 1, 3, 40, 300}[rng.IntN(6)]
 	delay := time.Duration(rng.Int64N(int64(60 * time.Millisecond)))
-	spec := faultSpec{Mode: "killloop", KeyLen: kl, Stores: stores, Prev: padUsers(pad), Dir: dir}
+	loc := Locs[rng.IntN(len(Locs))]
+	spec := faultSpec{Mode: "killloop", KeyLen: kl, Stores: stores, Prev: padUsers(pad), Dir: dir, Loc: loc}
 	sb, _ := json.Marshal(spec)
 	specPath := filepath.Join(dir, "spec.json")
 	os.WriteFile(specPath, sb, 0o644)
@@ -331,7 +332,8 @@ func killTrial(i int, rng *rand.Rand, base string) (violation string, nontrivial
 	if len(states) == 0 {
 		return "HARNESS empty journal", false, ""
 	}
-	content, err := os.ReadFile(filepath.Join(dir, "upsks.json"))
+	storePath, _ := os.ReadFile(filepath.Join(dir, "store-path"))
+	content, err := os.ReadFile(string(storePath)) // follows the link if the configured path is one
 	if err != nil {
 		return fmt.Sprintf("SIG=C20/kill-leaves-no-store after SIGKILL %v into the loop the store file is gone: %v", delay, err), false, ""
 	}
@@ -345,8 +347,8 @@ func killTrial(i int, rng *rand.Rand, base string) (violation string, nontrivial
 		restart = "; a restarting server silently starts with what it can read"
 	}
 	if derr != nil || !complete {
-		return fmt.Sprintf("SIG=C20/kill-leaves-unloadable-store SIGKILL %v into a loop of acknowledged changes (last save known complete #%d, last request #%d, %d-user store): store file is %d bytes %q: %v%s",
-			delay, lastS, lastI, len(states[lastS]), len(content), clip(content, 80), derr, restart), false, ""
+		return fmt.Sprintf("SIG=C20/kill-leaves-unloadable-store SIGKILL %v into a loop of acknowledged changes (last save known complete #%d, last request #%d, %d-user store): store file (location class %s) is %d bytes %q: %v%s",
+			delay, lastS, lastI, len(states[lastS]), loc, len(content), clip(content, 80), derr, restart), false, ""
 	}
 	if restart != "" {
 		return "SIG=C20/kill-leaves-unloadable-store document decodes per README" + restart, false, ""
@@ -362,7 +364,7 @@ func killTrial(i int, rng *rand.Rand, base string) (violation string, nontrivial
 		return fmt.Sprintf("SIG=C20/kill-leaves-stale-or-foreign-store after SIGKILL the store holds %d users, which is none of the states #%d..#%d (last save known complete: #%d)",
 			len(got), lastS, lastI, lastS), false, ""
 	}
-	return "", lastS >= 0 && lastI > lastS, fmt.Sprintf("pad/%d", pad)
+	return "", lastS >= 0 && lastI > lastS, fmt.Sprintf("pad/%d loc/%s", pad, loc)
 }
 
 func TestKillDuringSaves(t *testing.T) {
@@ -398,7 +400,7 @@ func TestKillDuringSaves(t *testing.T) {
 				violations = append(violations, v)
 				return
 			}
-			recKill.Case(fmt.Sprintf("%s/%v", label, nt), nt, label, "kill-judged")
+			recKill.Case(fmt.Sprintf("%s/%v", label, nt), nt, append(strings.Fields(label), "kill-judged")...)
 		})
 	}
 	wg.Wait()
